@@ -36,6 +36,11 @@ func (c *c08Case) base() string {
 		return "select key, count(1) where value = 'y' group by key"
 	case "aggr-ordered":
 		return "select key, count(1) where value = 'y' group by key order by key desc"
+	case "aggr-groups":
+		// groups with several members that interleave in key order
+		return "select value, count(1) where value ^= 'y' group by value"
+	case "aggr-groups-ordered":
+		return "select value, count(1) where value ^= 'y' group by value order by value desc"
 	case "delete":
 		return "delete where value = 'y'"
 	case "delete-in":
@@ -81,7 +86,7 @@ func (c08) Info() core.Info {
 	}
 }
 
-var c08Kinds = []string{"select", "ordered", "aggr", "aggr-ordered", "delete", "ordered-ties", "delete-in"}
+var c08Kinds = []string{"select", "ordered", "aggr", "aggr-ordered", "delete", "ordered-ties", "delete-in", "aggr-groups", "aggr-groups-ordered"}
 
 type c08Unit struct {
 	kind string
@@ -112,14 +117,14 @@ func (c08) Units(t core.Tier) int { return len(c08Units(t)) }
 
 func keyName(i int) string { return fmt.Sprintf("k%03d", i) }
 
-func c08PatternStore(pat, n int, ties bool) []store.Pair {
+func c08PatternStore(pat, n int, ties int) []store.Pair {
 	ps := make([]store.Pair, n)
 	for i := 0; i < n; i++ {
 		v := "n"
 		if pat&(1<<i) != 0 {
 			v = "y"
-			if ties {
-				v = "y" + string(rune('0'+i%2))
+			if ties > 0 {
+				v = "y" + string(rune('0'+i%ties))
 			}
 		}
 		ps[i] = store.Pair{K: keyName(i), V: v}
@@ -129,7 +134,13 @@ func c08PatternStore(pat, n int, ties bool) []store.Pair {
 
 func (c08) RunUnit(t core.Tier, u int, r *core.Reporter) {
 	un := c08Units(t)[u]
-	ties := un.kind == "ordered-ties"
+	ties := 0
+	switch un.kind {
+	case "ordered-ties":
+		ties = 2
+	case "aggr-groups", "aggr-groups-ordered":
+		ties = 3
+	}
 	modes := []string{drv.Row, drv.Batch}
 	run := func(ps []store.Pair, ss, ns []int) {
 		for _, mode := range modes {
@@ -190,8 +201,8 @@ func (c08) RunUnit(t core.Tier, u int, r *core.Reporter) {
 			ps := make([]store.Pair, 0, R+10)
 			for i := 0; i < R; i++ {
 				v := "y"
-				if ties {
-					v = "y" + string(rune('0'+i%2))
+				if ties > 0 {
+					v = "y" + string(rune('0'+i%ties))
 				}
 				ps = append(ps, store.Pair{K: keyName(i), V: v})
 			}
@@ -200,8 +211,8 @@ func (c08) RunUnit(t core.Tier, u int, r *core.Reporter) {
 			ps2 := make([]store.Pair, 0, 2*R)
 			for i := 0; i < R; i++ {
 				v := "y"
-				if ties {
-					v = "y" + string(rune('0'+i%2))
+				if ties > 0 {
+					v = "y" + string(rune('0'+i%ties))
 				}
 				ps2 = append(ps2, store.Pair{K: keyName(2 * i), V: v})
 				if i%3 == 0 {
@@ -237,7 +248,7 @@ func c08RunUnlimited(c *c08Case) *c08Unlimited {
 	var want []string
 	var acc []store.Pair
 	for _, p := range st0(c.Store) {
-		if p.V == "y" || (c.Kind == "ordered-ties" && strings.HasPrefix(p.V, "y")) {
+		if p.V == "y" || ((c.Kind == "ordered-ties" || strings.HasPrefix(c.Kind, "aggr-groups")) && strings.HasPrefix(p.V, "y")) {
 			acc = append(acc, p)
 		}
 	}
@@ -267,6 +278,21 @@ func c08RunUnlimited(c *c08Case) *c08Unlimited {
 	case "aggr":
 		for _, p := range acc {
 			want = append(want, ref.T(p.K).Canon()+" | "+ref.I(1).Canon())
+		}
+	case "aggr-groups", "aggr-groups-ordered":
+		cnt := map[string]int64{}
+		var order []string
+		for _, p := range acc {
+			if cnt[p.V] == 0 {
+				order = append(order, p.V)
+			}
+			cnt[p.V]++
+		}
+		if c.Kind == "aggr-groups-ordered" {
+			sort.Sort(sort.Reverse(sort.StringSlice(order)))
+		}
+		for _, v := range order {
+			want = append(want, ref.T(v).Canon()+" | "+ref.I(cnt[v]).Canon())
 		}
 	case "aggr-ordered":
 		rev := append([]store.Pair(nil), acc...)
